@@ -95,8 +95,12 @@ class Ctx:
 
     def prove(self, name, kind, goal, loc=None, info=None, assume_after=True):
         goal = to_z3(goal)
-        ob = Obligation(name, kind, list(self.pc), goal, loc, info)
-        self.obligations.append(ob)
+        parts = list(goal.children()) if z3.is_and(goal) and len(goal.children()) <= 12 else [goal]
+        ob = None
+        for k, g in enumerate(parts):
+            nm = name if len(parts) == 1 else f"{name}#{k}"
+            ob = Obligation(nm, kind, list(self.pc), g, loc, info)
+            self.obligations.append(ob)
         if assume_after:
             self.assume(goal)
         return ob
